@@ -74,7 +74,7 @@ var fullPool = []poolEntry{
 }
 
 // quickPairPool: sub-pool for the 2-tuples of the quick tier.
-var quickPairNames = []string{"nil", "0", "-1", "2^62", "1.5", `"abc"`, `#\a`, "sym", ":start", "(1 2 3)", "(1 . 2)", "#(1 2 3)", "ht", "sin", "lam"}
+var quickPairNames = []string{"nil", "el", "0", "-1", "2^62", "1.5", `"abc"`, `#\a`, "sym", ":start", "(1 2 3)", "(1 . 2)", "#(1 2 3)", "ht", "sin", "lam"}
 
 // triplePool: sub-pool for the 3-tuples.
 var tripleNames = []string{"nil", "-1", "2^62", `"abc"`, "sym", ":start", "(1 2 3)", "lam"}
